@@ -2248,4 +2248,517 @@ Proof.
     + intros x e [].
 Qed.
 
+Lemma result_step_newkey sd st done r st' done' x :
+  result_step o sd (st, done) r = (st', done') -> amem x done' = true -> amem x done = true \/ x = fst (fst r).
+Proof.
+  unfold result_step. destruct r as [[t idx] rep]. cbn [fst]. destruct (amem t done).
+  { intro H; injection H as <- <-. auto. }
+  destruct (notify_result o sd t idx st) as [[st1 s] d]. intro Ha.
+  apply apply_decision_spec in Ha. destruct Ha as (_ & _ & Ha).
+  assert (G : forall v, amem x (aset t v done) = true -> amem x done = true \/ x = t).
+  { intros v Hx. rewrite amem_aset in Hx. apply orb_true_iff in Hx. destruct Hx as [Hx|Hx]; [right; apply Nat.eqb_eq; exact Hx|auto]. }
+  destruct d.
+  - destruct Ha as [_ ->]. auto.
+  - destruct Ha as (-> & _). apply G.
+  - destruct Ha as (_ & _ & Ha). destruct s; destruct Ha as (-> & _); apply G.
+Qed.
+
+Lemma status_step_newkey st done err e st' done' err' x :
+  status_step (st, done, err) e = (st', done', err') -> amem x done' = true -> amem x done = true \/ x = fst e.
+Proof.
+  unfold status_step. destruct err; [intro H; injection H as <- <- <-; auto|].
+  destruct e as [t s]. cbn [fst].
+  assert (G : forall v, amem x (aset t v done) = true -> amem x done = true \/ x = t).
+  { intros v Hx. rewrite amem_aset in Hx. apply orb_true_iff in Hx. destruct Hx as [Hx|Hx]; [right; apply Nat.eqb_eq; exact Hx|auto]. }
+  destruct s; try solve [intro H; injection H as <- <- <-; auto].
+  - destruct (s_last st t); intro H; injection H as <- <- <-; [apply G|auto].
+  - intro H; injection H as <- <- <-. apply G.
+  - destruct (mem_nat t (s_sstopped st)); intro H; injection H as <- <- <-; [auto|apply G].
+Qed.
+
+Lemma loop1_life sd ks rs : forall st done st' done',
+  loop1 o sd rs st done = (st', done') ->
+  (forall r, In r rs -> In (fst (fst r)) ks /\ hidden (sd_status (fst (fst r)) sd) = false) ->
+  LI st -> PRok st ks done -> (forall x, amem x done = true -> hidden (sd_status x sd) = false) ->
+  LI st' /\ PRok st' ks done' /\ (forall x, amem x done' = true -> hidden (sd_status x sd) = false).
+Proof.
+  unfold loop1. induction rs as [|r rs IH]; intros st done st' done' H Hrs HLI HPR HK; cbn [fold_left] in H.
+  - injection H as <- <-. auto.
+  - destruct (result_step o sd (st, done) r) as [st1 done1] eqn:E1.
+    destruct (Hrs r (or_introl eq_refl)) as [Hr1 Hr2].
+    pose proof (result_step_life _ _ _ _ _ _ _ E1 Hr1 HLI HPR) as [HLI1 HPR1].
+    eapply IH; [exact H| | | |]; auto.
+    + intros r' Hr'. apply Hrs. right. exact Hr'.
+    + intros x Hx. destruct (result_step_newkey _ _ _ _ _ _ _ E1 Hx) as [Hx'| ->]; auto.
+Qed.
+
+Lemma loop2_life ks sd : forall st done err st' done' err',
+  fold_left status_step sd (st, done, err) = (st', done', err') ->
+  NoDup (map fst sd) -> (forall e, In e sd -> In (fst e) ks) ->
+  LI st -> PRok st ks done ->
+  (forall e, In e sd -> amem (fst e) done = true -> hidden (snd e) = false) ->
+  LI st' /\ PRok st' ks done'.
+Proof.
+  induction sd as [|e sd IH]; intros st done err st' done' err' H Hnd Hks HLI HPR HK; cbn [fold_left] in H.
+  - injection H as <- <- <-. auto.
+  - destruct (status_step (st, done, err) e) as [[st1 done1] err1] eqn:E1.
+    inversion Hnd as [|? ? Hni Hnd']; subst.
+    pose proof (status_step_life ks _ _ _ _ _ _ _ E1 (Hks e (or_introl eq_refl)) HLI HPR (HK e (or_introl eq_refl))) as [HLI1 HPR1].
+    eapply IH; [exact H|exact Hnd'| | | |]; auto.
+    + intros e' He'. apply Hks. right. exact He'.
+    + intros e' He' Hm. destruct (status_step_newkey _ _ _ _ _ _ _ _ E1 Hm) as [Hm'|Heq].
+      * apply HK; [right; exact He'|exact Hm'].
+      * exfalso. apply Hni. rewrite <- Heq. apply in_map. exact He'.
+Qed.
+
+Lemma poll_order_complete running ord t : In t running -> In t (poll_order running ord).
+Proof.
+  intro H. unfold poll_order. apply in_or_app. destruct (mem_nat t ord) eqn:E.
+  - left. apply filter_In. split; [|apply mem_nat_In; exact H].
+    apply mem_nat_In. rewrite mem_nat_nodup. exact E.
+  - right. apply filter_In. split; [exact H|]. rewrite E. reflexivity.
+Qed.
+
+Lemma sd_status_w st sd t : sd_ok st sd -> In t (map fst sd) -> sd_status t sd = w_of st t.
+Proof.
+  intros Hok Hin. unfold sd_status. destruct (aget t sd) as [s|] eqn:E.
+  - apply aget_In in E. symmetry. apply Hok. exact E.
+  - apply aget_none_notin in E. contradiction.
+Qed.
+
+(* life cycle through _process_new_results: [done] lists the trials whose run ended *)
+Lemma pnr_life st st' done err :
+  process_new_results prm o st = (st', done, err) -> NoDup (s_running st) ->
+  LI st -> (forall t, In t (s_running st) -> phase_of t (s_trace st) = PR) ->
+  LI st' /\ (err = None -> forall t, In t (s_running st) -> amem t done = false -> phase_of t (s_trace st') = PR).
+Proof.
+  unfold process_new_results.
+  set (order := poll_order (s_running st) (o_ord o (s_np st))).
+  set (st0 := emit (EBFetch order) (set_np st (S (s_np st)))).
+  destruct (fetch o order st0) as [[st1 sd] rs] eqn:Ef.
+  intros H Hnd HLI HR.
+  assert (HLI0 : LI st0 /\ forall x, phase_of x (s_trace st0) = phase_of x (s_trace st)).
+  { apply (LI_quiet st st0 [EBFetch order]); auto. intros x e [<-|[]]. reflexivity. }
+  destruct HLI0 as [HLI0 Hph0].
+  pose proof (fetch_LI _ _ _ _ _ Ef HLI0) as [HLI1 Hph1].
+  apply fetch_spec in Ef. destruct Ef as (A & _ & _ & _ & _ & _ & Hsdk & Hsd & Hrs).
+  set (st1' := emit (ECbFetch sd (map (fun r => (fst (fst r), snd (fst r))) rs)) st1) in *.
+  assert (HLI1' : LI st1' /\ forall x, phase_of x (s_trace st1') = phase_of x (s_trace st1)).
+  { apply (LI_quiet st1 st1' [ECbFetch sd (map (fun r => (fst (fst r), snd (fst r))) rs)]); auto.
+    intros x e [<-|[]]. reflexivity. }
+  destruct HLI1' as [HLI1' Hph1'].
+  assert (HPR1 : PRok st1' order []).
+  { intros t Ht _. rewrite Hph1', Hph1, Hph0. apply HR. eapply poll_order_incl; eauto. }
+  destruct (Nat.ltb (n_workers prm) (length (s_running st1'))).
+  { injection H as <- <- <-. split; [exact HLI1'|discriminate]. }
+  destruct (loop1 o sd rs st1' []) as [st2 done2] eqn:E1.
+  apply (loop1_life sd order) in E1; auto.
+  2:{ intros r Hr. destruct (Hrs r Hr) as [Hr1 Hr2]. split; [exact Hr1|].
+      rewrite (sd_status_w st1 sd); [exact Hr2|exact Hsd|rewrite Hsdk; exact Hr1]. }
+  2:{ intros x Hx. discriminate. }
+  destruct E1 as (HLI2 & HPR2 & HK2).
+  destruct (loop2 sd st2 done2) as [[st3 done3] err3] eqn:E2. unfold loop2 in E2.
+  apply (loop2_life order) in E2; auto.
+  2:{ rewrite Hsdk. apply poll_order_NoDup. exact Hnd. }
+  2:{ intros e He. rewrite <- Hsdk. apply in_map. exact He. }
+  2:{ intros [t s] He Hm. cbn [fst snd] in *. specialize (HK2 t Hm).
+      unfold sd_status in HK2. rewrite (In_aget_nodup t s sd) in HK2; [exact HK2| |exact He].
+      rewrite Hsdk. apply poll_order_NoDup. exact Hnd. }
+  destruct E2 as [HLI3 HPR3].
+  destruct err3; injection H as <- <- <-.
+  - split; [exact HLI3|discriminate].
+  - destruct (status_update_frame (aupdate sd done3) rs st3) as (_ & F2 & F3 & F4 & _).
+    split.
+    + destruct HLI3 as (L1 & L3 & L4). unfold LI. rewrite F2, F3, F4. auto.
+    + intros _ t Ht Hm. rewrite F4. apply HPR3; [|exact Hm]. apply poll_order_complete. exact Ht.
+Qed.
+
+Definition LInv (st : state) : Prop :=
+  LI st /\ (forall t, In t (s_running st) -> phase_of t (s_trace st) = PR).
+
+Lemma poll_life st st' err :
+  poll prm o st = (st', err) -> binv st -> LInv st -> LI st' /\ (err = None -> LInv st').
+Proof.
+  unfold poll. destruct (process_new_results prm o (emit ECbLoopStart st)) as [[st1 done] err1] eqn:E.
+  intros H Hb [HLI HR].
+  assert (HLI0 : LI (emit ECbLoopStart st) /\ forall x, phase_of x (s_trace (emit ECbLoopStart st)) = phase_of x (s_trace st)).
+  { apply (LI_quiet st (emit ECbLoopStart st) [ECbLoopStart]); auto. intros x e [<-|[]]. reflexivity. }
+  destruct HLI0 as [HLI0 Hph0].
+  pose proof E as Eb. apply pnr_budget in Eb. destruct Eb as (R1 & _). simpl in R1.
+  apply pnr_life in E; [|apply Hb|exact HLI0|intros t Ht; rewrite Hph0; apply HR; exact Ht].
+  destruct E as [HLI1 HR1]. destruct err1; injection H as <- <-.
+  - split; [exact HLI1|discriminate].
+  - assert (HLI2 : LI (set_running (set_doneall st1 (aupdate (s_doneall st1) done))
+                     (remove_all (map fst done) (s_running (set_doneall st1 (aupdate (s_doneall st1) done)))))).
+    { destruct HLI1 as (L1 & L3 & L4). unfold LI. simpl. auto. }
+    split; [exact HLI2|]. intros _. split; [exact HLI2|].
+    cbn [s_running s_trace set_running set_doneall]. intros t Ht. apply remove_all_In in Ht. destruct Ht as [Ht Hnd].
+    apply (HR1 eq_refl); [simpl; rewrite <- R1; exact Ht|].
+    destruct (amem t done) eqn:Em; [|reflexivity]. apply amem_keys in Em. contradiction.
+Qed.
+
+Lemma schedule_new_task_life st st' r : schedule_new_task o st = (st', r) -> LInv st -> LInv st'.
+Proof.
+  unfold schedule_new_task. intros H [HLI HR].
+  set (n := s_ntrials st) in *.
+  assert (Hreg : forall t (l : list nat) x, In x (if mem_nat t l then l else l ++ [t]) -> x = t \/ In x l).
+  { intros t l x. destruct (mem_nat t l); [auto|]. intro Hx. apply in_app_or in Hx. destruct Hx as [Hx|[Hx|[]]]; auto. }
+  assert (Hq : forall sg stx, s_trace stx = [ESSuggest n sg] ++ s_trace st -> s_ntrials stx = s_ntrials st ->
+             s_bt stx = s_bt st -> s_running stx = s_running st -> LInv stx).
+  { intros sg stx Htr Hn Hbt Hrun. destruct (LI_quiet st stx [ESSuggest n sg]) as [HL Ho]; auto.
+    - intros x e [<-|[]]. reflexivity.
+    - split; [exact HL|]. intros t Ht. rewrite Ho. apply HR. rewrite <- Hrun. exact Ht. }
+  destruct (o_sug o (s_ns st)) as [|cfg ck|id cfg].
+  - injection H as <- <-. apply (Hq SNothing); reflexivity.
+  - injection H as <- <-.
+    destruct HLI as (L1 & L3 & L4).
+    assert (Hpn : phase_of n (s_trace st) = PN) by (apply L3; unfold n; lia).
+    set (new := [ECbStart n; ESAdd n; EBStart n cfg ck; ESSuggest n (SStart cfg ck)]).
+    assert (Ho : forall x, x <> n -> phase_of x (new ++ s_trace st) = phase_of x (s_trace st)).
+    { intros x Hx. apply phase_of_app_none. assert (Hne : Nat.eqb n x = false) by (apply Nat.eqb_neq; congruence).
+      intros e [<-|[<-|[<-|[<-|[]]]]]; simpl; rewrite ?Hne; reflexivity. }
+    assert (Hn' : phase_of n (new ++ s_trace st) = PR).
+    { simpl. rewrite Nat.eqb_refl, Hpn. reflexivity. }
+    unfold LInv, LI.
+    cbn [s_running s_ntrials s_trace s_bt set_smap set_running emit set_b set_bt set_ntrials set_ns].
+    change (ECbStart n :: ESAdd n :: EBStart n cfg ck :: ESSuggest n (SStart cfg ck) :: s_trace st) with (new ++ s_trace st).
+    split; [split; [|split]|].
+    + intro x. destruct (Nat.eq_dec x n) as [->|Hx]; [rewrite Hn'; discriminate|rewrite Ho by exact Hx; apply L1].
+    + intros x Hx. rewrite Ho by lia. apply L3. unfold n in *. lia.
+    + intros x Hx. destruct (Nat.eq_dec x n) as [->|Hxn].
+      * rewrite upd_same in Hx. simpl in Hx. destruct Hx; discriminate.
+      * rewrite upd_other in Hx by exact Hxn. rewrite Ho by exact Hxn. apply L4. exact Hx.
+    + intros t Ht. apply Hreg in Ht. destruct Ht as [->|Ht]; [exact Hn'|].
+      assert (Htn : t <> n) by (intros ->; apply HR in Ht; congruence).
+      rewrite Ho by exact Htn. apply HR. exact Ht.
+  - destruct (Nat.ltb id n) eqn:Eid.
+    2:{ injection H as <- <-. apply (Hq (SResume id cfg)); reflexivity. }
+    destruct (b_td (s_bt (emit (ESSuggest n (SResume id cfg)) (set_ns st (S (s_ns st)))) id)) eqn:Etd;
+      try (injection H as <- <-; apply (Hq (SResume id cfg)); reflexivity).
+    injection H as <- <-. simpl in Etd.
+    assert (Hpz : phase_of id (s_trace st) = PZ) by (destruct HLI as (_ & _ & L4); apply L4; left; exact Etd).
+    set (new := [ECbResume id; EBResume id cfg; ESSuggest n (SResume id cfg)]).
+    match goal with |- LInv ?s => set (stx := s) end.
+    destruct (LI_step st stx id new PZ PR) as [HL Ho]; auto; try discriminate.
+    + intros x Hx e He. assert (Hne : Nat.eqb id x = false) by (apply Nat.eqb_neq; congruence).
+      destruct He as [<-|[<-|[<-|[]]]]; simpl; rewrite ?Hne; reflexivity.
+    + unfold stx. simpl. rewrite Nat.eqb_refl, Hpz. reflexivity.
+    + intros x Hx. unfold stx. simpl. rewrite upd_other by exact Hx. auto.
+    + unfold stx. simpl. rewrite upd_same. simpl. intros [Hx|Hx]; discriminate.
+    + split; [exact HL|]. unfold stx. cbn [s_running set_smap set_running]. intros t Ht. apply Hreg in Ht.
+      destruct Ht as [->|Ht].
+      * simpl. rewrite Nat.eqb_refl, Hpz. reflexivity.
+      * assert (Htn : t <> id) by (intros ->; apply HR in Ht; congruence).
+        fold stx. rewrite Ho by exact Htn. apply HR. exact Ht.
+Qed.
+
+Lemma schedule_k_life k : forall st st' r, schedule_k o k st = (st', r) -> LInv st -> LInv st'.
+Proof.
+  induction k as [|k IH]; intros st st' r H Hi; simpl in H; [injection H as <- <-; exact Hi|].
+  destruct (schedule_new_task o st) as [st1 r1] eqn:E1. apply schedule_new_task_life in E1; [|exact Hi].
+  destruct r1; [eauto| |]; injection H as <- <-; exact E1.
+Qed.
+
+Lemma LInv_emit_quiet e st : (forall x, tev_of x e = None) -> LInv st -> LInv (emit e st).
+Proof.
+  intros He [HLI HR]. destruct (LI_quiet st (emit e st) [e]) as [HL Ho]; auto.
+  - intros x e' [<-|[]]. apply He.
+  - split; [exact HL|]. intros t Ht. rewrite Ho. apply HR. exact Ht.
+Qed.
+
+Lemma schedule_new_tasks_life st st' r : schedule_new_tasks prm o st = (st', r) -> LInv st -> LInv st'.
+Proof.
+  unfold schedule_new_tasks. destruct (Nat.leb _ _).
+  - intros H Hi. injection H as <- <-. apply LInv_emit_quiet; [reflexivity|exact Hi].
+  - apply schedule_k_life.
+Qed.
+
+Lemma iteration_end_life st st' c : iteration_end prm o st = (st', c) -> LInv st -> LInv st'.
+Proof.
+  unfold iteration_end, stop_condition. intros H Hi. injection H as <- _.
+  match goal with |- LInv (emit ?e (set_nc ?s ?v)) => change (emit e (set_nc s v)) with (set_nc (emit e s) v) end.
+  assert (G : forall s v, LInv s -> LInv (set_nc s v)).
+  { intros s v [(L1 & L3 & L4) HR]. unfold LInv, LI. simpl. auto. }
+  apply G. apply LInv_emit_quiet; [reflexivity|]. apply LInv_emit_quiet; [reflexivity|exact Hi].
+Qed.
+
+Theorem run_loop_life fuel st x :
+  run_loop prm o fuel = (st, x) -> forall t, phase_of t (s_trace st) <> PBad.
+Proof.
+  unfold run_loop. destruct (stop_condition prm o (emit ECbTuningStart init_state)) as [st0 c0] eqn:E0. intro H.
+  assert (G : LI st); [|apply G].
+  eapply (loop_rule (fun s _ => binv s /\ LInv s) (fun s _ => binv s /\ LInv s) LI); [| | | | |exact H|].
+  - intros s c (_ & HL & _). exact HL.
+  - intros s c s' err (A & B) _ Ep. pose proof (poll_life _ _ _ Ep A B) as [HL HI].
+    apply poll_budget in Ep; [|exact A]. destruct Ep as (Hb1 & _). split; [auto|intros _; exact HL].
+  - intros s c (_ & HL & _). exact HL.
+  - intros s c ex s' c' (A & B) _ _ Ei. split.
+    + eapply iteration_end_budget; [exact Ei|apply binv_emit; exact A].
+    + eapply iteration_end_life; [exact Ei|]. apply LInv_emit_quiet; [reflexivity|exact B].
+  - intros s c ex s2 r (A & B) _ Es.
+    pose proof (schedule_new_tasks_life _ _ _ Es B) as HL2.
+    pose proof (schedule_new_tasks_budget _ _ _ Es A) as (Hb2 & _).
+    destruct r; [| |apply HL2]; intros s3 c' Ei; (split; [eapply iteration_end_budget; eauto|eapply iteration_end_life; eauto]).
+  - unfold stop_condition in E0. injection E0 as <- _. split.
+    + unfold binv. simpl. repeat split; [constructor|lia|intros t Ht; lia].
+    + unfold LInv, LI. simpl. repeat split; auto; try discriminate.
+      * intros t [Hx|Hx]; discriminate.
+      * intros t [].
+Qed.
+
+(* ======================================================================== *)
+(*  Part 11: how the loop ends (C12)                                           *)
+(* ======================================================================== *)
+Lemma loop_rule2 (Ihead Imid : state -> bool -> bool -> Prop) (Final : state -> loop_exit -> Prop) :
+  (forall st c ex, Ihead st c ex -> Final st LFuel) ->
+  (forall st c ex, Ihead st c ex -> while_cond prm st c = false -> Final st (LExit None)) ->
+  (forall st c ex st' err, Ihead st c ex -> while_cond prm st c = true -> poll prm o st = (st', err) ->
+     match err with None => Imid st' c ex | Some e => Final st' (LExit (Some e)) end) ->
+  (forall st c ex, Imid st c ex -> ex || wait_completion prm && c = true -> s_running st = [] -> Final st (LExit None)) ->
+  (forall st c ex st' c', Imid st c ex -> ex || wait_completion prm && c = true -> s_running st <> [] ->
+     iteration_end prm o (sleep st) = (st', c') -> Ihead st' c' ex) ->
+  (forall st c ex st2 r, Imid st c ex -> ex || wait_completion prm && c = false ->
+     schedule_new_tasks prm o st = (st2, r) ->
+     match r with
+     | SErr e => Final st2 (LExit (Some e))
+     | SStopIteration => forall st3 c', iteration_end prm o st2 = (st3, c') -> Ihead st3 c' true
+     | SOk => forall st3 c', iteration_end prm o st2 = (st3, c') -> Ihead st3 c' ex
+     end) ->
+  forall fuel st c ex st' x, loop prm o fuel st c ex = (st', x) -> Ihead st c ex -> Final st' x.
+Proof.
+  intros Hfuel Hexit Hpoll Hbreak Hwait Hsched. induction fuel as [|f IH]; intros st c ex st' x H Hi.
+  - simpl in H. injection H as <- <-. eapply Hfuel; eauto.
+  - rewrite loop_S in H. destruct (while_cond prm st c) eqn:Ew; [|injection H as <- <-; eapply Hexit; eauto].
+    destruct (poll prm o st) as [st1 err] eqn:Ep.
+    pose proof (Hpoll _ _ _ _ _ Hi Ew Ep) as Hp.
+    destruct err as [e|]; [injection H as <- <-; exact Hp|].
+    destruct (ex || wait_completion prm && c) eqn:Eb.
+    + destruct (s_running st1) eqn:Er; [injection H as <- <-; eapply Hbreak; eauto|].
+      destruct (iteration_end prm o (sleep st1)) as [st2 c'] eqn:Ei.
+      eapply IH; [exact H|]. eapply Hwait; eauto. rewrite Er. discriminate.
+    + destruct (schedule_new_tasks prm o st1) as [st2 r] eqn:Es.
+      pose proof (Hsched _ _ _ _ _ Hp Eb Es) as Hs.
+      destruct r.
+      * destruct (iteration_end prm o st2) as [st3 c'] eqn:Ei. eapply IH; [exact H|]. apply Hs. reflexivity.
+      * destruct (iteration_end prm o st2) as [st3 c'] eqn:Ei. eapply IH; [exact H|]. apply Hs. reflexivity.
+      * injection H as <- <-. exact Hs.
+Qed.
+
+(* suggest returned None at some point of the (newest first) trace *)
+Definition exhausted (tr : list event) : bool :=
+  existsb (fun e => match e with ESSuggest _ SNothing => true | _ => false end) tr.
+Definition is_suggest (e : event) : bool := match e with ESSuggest _ _ => true | _ => false end.
+(* suggest is never called again after it returned None *)
+Fixpoint no_suggest_after_none (tr : list event) : Prop :=
+  match tr with [] => True | e :: tr' => no_suggest_after_none tr' /\ (is_suggest e = true -> exhausted tr' = false) end.
+
+Lemma exhausted_app new tr : forallb (fun e => negb (is_suggest e)) new = true -> exhausted (new ++ tr) = exhausted tr.
+Proof.
+  unfold exhausted. induction new as [|e new IH]; simpl; [reflexivity|]. rewrite andb_true_iff. intros [H1 H2].
+  rewrite IH by exact H2. destruct e; simpl in *; try reflexivity. discriminate.
+Qed.
+Lemma nsan_app new tr : forallb (fun e => negb (is_suggest e)) new = true ->
+  no_suggest_after_none tr -> no_suggest_after_none (new ++ tr).
+Proof.
+  induction new as [|e new IH]; simpl; [auto|]. rewrite andb_true_iff. intros [H1 H2] Hn.
+  split; [auto|]. intro Hs. rewrite Hs in H1. discriminate.
+Qed.
+
+Definition xinv (st : state) (ex : bool) : Prop :=
+  no_suggest_after_none (s_trace st) /\ exhausted (s_trace st) = ex.
+
+Lemma xinv_ext Q st st' ex : (forall e, Q e = true -> is_suggest e = false) -> ext Q st st' -> xinv st ex -> xinv st' ex.
+Proof.
+  intros HQ (new & Ht & F) [A B]. unfold xinv. rewrite Ht.
+  assert (F' : forallb (fun e => negb (is_suggest e)) new = true).
+  { rewrite forallb_forall in *. intros e He. rewrite (HQ e (F e He)). reflexivity. }
+  split; [apply nsan_app; auto|rewrite exhausted_app; auto].
+Qed.
+
+Lemma schedule_new_task_xinv st st' r : schedule_new_task o st = (st', r) -> xinv st false ->
+  match r with SStopIteration => xinv st' true | SOk => xinv st' false | SErr _ => no_suggest_after_none (s_trace st') end.
+Proof.
+  unfold schedule_new_task, xinv. intros H [A B].
+  destruct (o_sug o (s_ns st)) as [|cfg ck|id cfg].
+  - injection H as <- <-. simpl. repeat split; auto.
+  - injection H as <- <-. simpl. unfold exhausted in *. simpl. repeat split; auto; discriminate.
+  - destruct (Nat.ltb id (s_ntrials st)); [|injection H as <- <-; simpl; repeat split; auto].
+    destruct (b_td _); injection H as <- <-; simpl; unfold exhausted in *; simpl; repeat split; auto; discriminate.
+Qed.
+Lemma schedule_k_xinv k : forall st st' r, schedule_k o k st = (st', r) -> xinv st false ->
+  match r with SStopIteration => xinv st' true | SOk => xinv st' false | SErr _ => no_suggest_after_none (s_trace st') end.
+Proof.
+  induction k as [|k IH]; intros st st' r H Hi; simpl in H; [injection H as <- <-; exact Hi|].
+  destruct (schedule_new_task o st) as [st1 r1] eqn:E1. apply schedule_new_task_xinv in E1; [|exact Hi].
+  destruct r1; [exact (IH _ _ _ H E1)| |]; injection H as <- <-; exact E1.
+Qed.
+Lemma schedule_new_tasks_xinv st st' r : schedule_new_tasks prm o st = (st', r) -> xinv st false ->
+  match r with SStopIteration => xinv st' true | SOk => xinv st' false | SErr _ => no_suggest_after_none (s_trace st') end.
+Proof.
+  unfold schedule_new_tasks. destruct (Nat.leb _ _).
+  - intros H [A B]. injection H as <- <-. unfold xinv. simpl. auto.
+  - apply schedule_k_xinv.
+Qed.
+
+(* how run_loop can end *)
+Definition exit_ok (st : state) (x : loop_exit) : Prop :=
+  no_suggest_after_none (s_trace st) /\
+  (x = LExit None ->
+     (flag_of (s_trace st) = true \/ (exhausted (s_trace st) = true /\ s_running st = [])) /\
+     (wait_completion prm = true -> s_running st = [])).
+
+Lemma run_loop_exit fuel st x : run_loop prm o fuel = (st, x) -> exit_ok st x.
+Proof.
+  unfold run_loop. destruct (stop_condition prm o (emit ECbTuningStart init_state)) as [st0 c0] eqn:E0. intro H.
+  assert (Hend : forall s s' c' ex, iteration_end prm o s = (s', c') -> xinv s ex -> xinv s' ex /\ flag_of (s_trace s') = c').
+  { intros s s' c' ex Ei [A B]. unfold iteration_end, stop_condition in Ei. injection Ei as <- <-. unfold xinv. simpl.
+    unfold exhausted in *. simpl. repeat split; auto; discriminate. }
+  eapply (loop_rule2
+    (fun s c ex => xinv s ex /\ flag_of (s_trace s) = c)
+    (fun s c ex => xinv s ex /\ flag_of (s_trace s) = c /\ (c = true -> wait_completion prm = true))
+    exit_ok); [| | | | | |exact H|].
+  - intros s c ex ([A B] & _). split; [exact A|discriminate].
+  - intros s c ex ([A B] & Hf) Ew. split; [exact A|]. intros _. unfold while_cond in Ew.
+    apply orb_false_iff in Ew. destruct Ew as [Ec Ew]. apply negb_false_iff in Ec. subst c. split; [left; exact Ec|].
+    intro Hw. rewrite Hw in Ew. simpl in Ew. apply negb_false_iff, Nat.eqb_eq in Ew.
+    destruct (s_running s); [reflexivity|discriminate].
+  - intros s c ex s' err (Hx & Hf) Ew Ep. apply poll_ext in Ep.
+    assert (Hx' : xinv s' ex) by (eapply xinv_ext; [|exact Ep|exact Hx]; intros e He; destruct e; simpl in *; auto; discriminate).
+    destruct err.
+    + split; [apply Hx'|discriminate].
+    + split; [exact Hx'|]. split; [rewrite (ext_flag _ _ _ poll_ev_not_stop Ep); exact Hf|].
+      intros ->. eapply while_cond_true_c; eauto.
+  - intros s c ex ([A B] & Hf & Hw) Eb Er. split; [exact A|]. intros _. split; [|intros _; exact Er].
+    apply orb_true_iff in Eb. destruct Eb as [->|Eb]; [right; auto|].
+    apply andb_true_iff in Eb. destruct Eb as [_ ->]. left. exact Hf.
+  - intros s c ex s' c' (Hx & Hf & Hw) _ _ Ei. apply (Hend _ _ _ ex Ei).
+    destruct Hx as [A B]. unfold xinv. simpl. unfold exhausted in *. simpl. repeat split; auto; discriminate.
+  - intros s c ex s2 r (Hx & Hf & Hw) Eb Es.
+    assert (Hex : ex = false) by (apply orb_false_iff in Eb; tauto). subst ex.
+    apply schedule_new_tasks_xinv in Es; [|exact Hx].
+    destruct r.
+    + intros s3 c' Ei. apply (Hend _ _ _ false Ei Es).
+    + intros s3 c' Ei. apply (Hend _ _ _ true Ei Es).
+    + split; [exact Es|discriminate].
+  - unfold stop_condition in E0. injection E0 as <- <-. unfold xinv. simpl. repeat split; auto; discriminate.
+Qed.
+
+(* ======================================================================== *)
+(*  Part 12: delivered results reach the scheduler once, in order (C01)        *)
+(* ======================================================================== *)
+(* specification: walking through the results returned by the poll, a result is passed to
+   scheduler.on_trial_result unless an earlier result of the same trial in this batch got STOP/PAUSE *)
+Fixpoint told (nd : nat) (gone : list nat) (rs : list result) : list (nat * nat * decision) :=
+  match rs with
+  | [] => []
+  | (t, idx, _) :: rs' =>
+      if mem_nat t gone then told nd gone rs'
+      else let d := o_dec o nd in
+           (t, idx, d) :: told (S nd) (match d with CONTINUE => gone | _ => t :: gone end) rs'
+  end.
+(* on_trial_result calls recorded in a (newest first) trace, in chronological order *)
+Fixpoint sres (tr : list event) : list (nat * nat * decision) :=
+  match tr with
+  | [] => []
+  | ESResult t i d :: tr' => sres tr' ++ [(t, i, d)]
+  | _ :: tr' => sres tr'
+  end.
+
+Lemma sres_app new tr : sres (new ++ tr) = sres tr ++ sres new.
+Proof.
+  induction new as [|e new IH]; simpl; [rewrite app_nil_r; reflexivity|].
+  destruct e; rewrite ?IH, ?app_assoc; reflexivity.
+Qed.
+
+Lemma result_step_told sd st done r st' done' gone :
+  result_step o sd (st, done) r = (st', done') -> (forall x, amem x done = mem_nat x gone) ->
+  exists gone', (forall x, amem x done' = mem_nat x gone') /\
+    sres (s_trace st') ++ told (s_nd st') gone' [] = sres (s_trace st) ++ told (s_nd st) gone [r] /\
+    (forall rs, told (s_nd st) gone (r :: rs) = told (s_nd st) gone [r] ++ told (s_nd st') gone' rs).
+Proof.
+  unfold result_step. destruct r as [[t idx] rep]. intros H Hg. cbn [told].
+  rewrite <- (Hg t). destruct (amem t done) eqn:Em.
+  { injection H as <- <-. exists gone. split; [exact Hg|]. split; [reflexivity|]. intro rs. reflexivity. }
+  unfold notify_result, apply_decision in H. cbn [s_nd set_last] in H.
+  destruct (o_dec o (s_nd st)) eqn:Ed.
+  - injection H as <- <-. exists gone. simpl. split; [exact Hg|]. split; [rewrite app_nil_r; reflexivity|]. intro rs. reflexivity.
+  - injection H as <- <-. exists (t :: gone). simpl. split.
+    + intro x. rewrite amem_aset. rewrite Hg. reflexivity.
+    + split; [rewrite app_nil_r; reflexivity|]. intro rs. reflexivity.
+  - destruct (sd_status t sd); injection H as <- <-; exists (t :: gone); simpl;
+      (split; [intro x; rewrite amem_aset, Hg; reflexivity|]);
+      (split; [rewrite app_nil_r; reflexivity|intro rs; reflexivity]).
+Qed.
+
+Lemma loop1_told sd rs : forall st done st' done' gone,
+  loop1 o sd rs st done = (st', done') -> (forall x, amem x done = mem_nat x gone) ->
+  sres (s_trace st') = sres (s_trace st) ++ told (s_nd st) gone rs.
+Proof.
+  unfold loop1. induction rs as [|r rs IH]; intros st done st' done' gone H Hg; cbn [fold_left] in H.
+  - injection H as <- <-. simpl. rewrite app_nil_r. reflexivity.
+  - destruct (result_step o sd (st, done) r) as [st1 done1] eqn:E1.
+    destruct (result_step_told _ _ _ _ _ _ _ E1 Hg) as (gone' & Hg' & Hs & Ht).
+    rewrite (IH _ _ _ _ _ H Hg'). rewrite Ht, app_assoc. f_equal.
+    simpl in Hs. rewrite app_nil_r in Hs. exact Hs.
+Qed.
+
+(* resume_trial is only reached for a trial the backend holds as Paused; otherwise the run ends
+   with the backend's assertion error and nothing is resumed *)
+Lemma resume_only_paused st st' r id cfg :
+  o_sug o (s_ns st) = SResume id cfg -> schedule_new_task o st = (st', r) ->
+  (id < s_ntrials st /\ td_of st id = Paused /\ r = SOk /\
+   s_trace st' = ECbResume id :: EBResume id cfg :: ESSuggest (s_ntrials st) (SResume id cfg) :: s_trace st) \/
+  ((r = SErr (EResumeNotPaused id) \/ r = SErr (EResumeUnknown id)) /\
+   (id < s_ntrials st -> td_of st id <> Paused) /\
+   s_trace st' = ESSuggest (s_ntrials st) (SResume id cfg) :: s_trace st).
+Proof.
+  unfold schedule_new_task. intros -> H.
+  destruct (Nat.ltb id (s_ntrials st)) eqn:Eid.
+  - apply Nat.ltb_lt in Eid. simpl in H.
+    destruct (b_td (s_bt st id)) eqn:Etd; injection H as <- <-;
+      try (right; split; [left; reflexivity|]; split; [intros _; first [discriminate|rewrite Etd; discriminate]|reflexivity]).
+    left. split; [exact Eid|]. split; [reflexivity|]. split; reflexivity.
+  - injection H as <- <-. right. split; [right; reflexivity|]. split; [|reflexivity].
+    intro Hlt. apply Nat.ltb_ge in Eid. lia.
+Qed.
+
+Lemma overshoot_completed b fuel st x :
+  wait_completion prm = false -> c_completed prm = Some b -> (0 <= b)%Z -> run_loop prm o fuel = (st, x) ->
+  (Z.of_nat (num_status is_completed (s_smap st)) <= b + Z.of_nat (n_workers prm))%Z.
+Proof.
+  intros Hw Hb Hb0 H. eapply (overshoot_count is_completed); eauto.
+  intros s now Hc. apply criterion_false_counts in Hc. tauto.
+Qed.
+Lemma overshoot_finished b fuel st x :
+  wait_completion prm = false -> c_finished prm = Some b -> (0 <= b)%Z -> run_loop prm o fuel = (st, x) ->
+  (Z.of_nat (num_status is_finished (s_smap st)) <= b + Z.of_nat (n_workers prm))%Z.
+Proof.
+  intros Hw Hb Hb0 H. eapply (overshoot_count is_finished); eauto.
+  intros s now Hc. apply criterion_false_counts in Hc. tauto.
+Qed.
+
+(* events a loop iteration can emit *)
+Definition body_ev (e : event) : bool :=
+  match e with ECbLoopEnd => true | _ => poll_ev e || sched_sleep_ev e end.
+
+Lemma exit_at_first_true fuel st x :
+  wait_completion prm = false -> run_loop prm o fuel = (st, x) -> guarded body_ev (s_trace st).
+Proof.
+  intros Hw H. eapply run_loop_guarded; eauto. congruence.
+Qed.
+Lemma no_start_after_stop fuel st x :
+  run_loop prm o fuel = (st, x) -> guarded sched_ev (s_trace st).
+Proof. intro H. eapply run_loop_guarded; eauto. Qed.
+
+Lemma run_outcome_not_assert fuel st out : run prm o fuel = (st, out) -> out <> Raised EAssertBudget.
+Proof.
+  unfold run. destruct (run_loop prm o fuel) as [st0 x] eqn:E. apply run_loop_budget in E. destruct E as [_ Hx].
+  destruct x as [err|]; [|intro H; injection H as <- <-; discriminate].
+  intro H. apply finalize_spec in H. destruct H as (_ & _ & _ & _ & _ & _ & _ & H1 & H2).
+  destruct (too_many_failures prm st) eqn:Et.
+  - specialize (H2 eq_refl). destruct (first_failed (s_doneall st0)); [rewrite H2; discriminate|].
+    rewrite H2. destruct err as [e|]; [|discriminate]. intro Hc. injection Hc as ->. apply Hx. reflexivity.
+  - rewrite (H1 eq_refl). destruct err as [e|]; [|discriminate]. intro Hc. injection Hc as ->. apply Hx. reflexivity.
+Qed.
+
 End Proofs.
